@@ -10,14 +10,14 @@ Vocabulary of the statements
                      its storage unit, a member of 8 bytes or more shares no byte with a bit-field's storage unit, union members are
                      not bit-fields and sit at offset 0.  Every non-packed type struct_decl/union_decl lay out satisfies it.
 * `fits init ty`   — the initializer tree has the shape of the type; a leaf initialised by an address constant is an 8-byte
-                     integer or pointer; bit-fields are initialised by integer constants (for a `_Bool` bit-field: one whose
-                     masked value survives conversion to `_Bool`, see Findings/C05); no struct-valued expression (those
-                     exist for automatic objects only); a union without chosen member carries no expression.
+                     integer or pointer; bit-fields are initialised by integer constants; no struct- or union-valued
+                     expression (those exist for automatic objects only); a union without chosen member carries no expression.
 * `leaves init ty 0` — the initialised scalar leaves with their storage locations.
 -/
 import ChibiVerif.Model.Init
 import ChibiVerif.Spec.InitSpec
 import ChibiVerif.Lemmas.InitTreeLemmas
+import ChibiVerif.Lemmas.InitFuelLemmas
 
 namespace ChibiVerif.Props.C05
 open ChibiVerif.Init
@@ -118,5 +118,95 @@ theorem C05_emit (im : Image) (size : Nat) (hb : im.bytes.length = size) (hr : R
   exact overlay_length _ _ size 0 (by simpa using hb) hr
 
 example : RelocsFrom 32 0 ((gvarInit exInit exTy).toOption.get!).relocs := by decide
+
+/-- **C05 (fuel).**  The recursion fuel of the parser transcription never changes an answer: whatever `initializer2` returns with
+    some fuel (other than "out of fuel") it returns with any larger fuel. -/
+theorem C05_fuel_mono (ty : Ty) (toks : List ITok) (init : Init) (f g : Nat) (h : f ≤ g) (r : Except Fail (Init × List ITok))
+    (hr : initializer2 f ty toks init = r) (hne : r ≠ .error .fuel) : initializer2 g ty toks init = r := by
+  rcases initializer2_fuel_mono ty toks init f g h with h1 | h1
+  · rw [hr] at h1; exact absurd h1 hne
+  · rw [← h1, hr]
+
+example : (parseInit exTy [.lbrace, .expr (Expr.num 1), .comma, .dot "a", .idx 1, .eq, .expr (Expr.num 7), .rbrace]).toOption.isSome = true := by
+  decide
+
+/-! ### parser = specification -/
+
+/-- **C05 (parser = 6.7.9), full statement.**  Wherever both the parser and the specification accept an initializer they build the
+    same object value and stop at the same token.  Refuted inside the region `InitSpec.BraceOverride` by
+    `Findings.C05.C05_finding_brace_override` (known finding C05-brace-override-keeps-old); outside that region and outside GNU range
+    designators applied to aggregate elements with elided braces it is proved below on exhaustive small scopes and tested on every
+    generated case of every run (`drv_c05 init` prints `same=`). -/
+def C05_parse_spec_Statement : Prop :=
+  ∀ (ty : Ty) (toks : List ITok) (p : Init × List ITok) (r : InitSpec.Result),
+    parseInit ty toks = .ok p → InitSpec.initFull ty toks = .ok r → Init.beq p.1 r.obj = true ∧ p.2 = r.rest
+
+/-- parser and specification agree on `toks` unless one of them rejects it or it lies in the known region -/
+def agreeOn (ty : Ty) (toks : List ITok) : Bool :=
+  match parseInit ty toks, InitSpec.initFull ty toks with
+  | .ok (p, pr), .ok r => r.over || (Init.beq p r.obj && pr == r.rest)
+  | _, _ => true
+
+/-- all token lists of length `n` over `alphabet` -/
+def allLists (alphabet : List ITok) : Nat → List (List ITok)
+  | 0 => [[]]
+  | n+1 => (allLists alphabet n).flatMap (fun l => alphabet.map (fun t => t :: l))
+
+def one : ITok := .expr (Expr.num 1)
+def tInt : Ty := .scalar 4 .int
+/-- `struct { int a; struct { int b; int c[2]; } s; int d; }` -/
+def scopeS : Ty := .struct [(⟨some "a", 0, none⟩, tInt),
+  (⟨some "s", 4, none⟩, .struct [(⟨some "b", 0, none⟩, tInt), (⟨some "c", 4, none⟩, .array tInt 2)] 12 false),
+  (⟨some "d", 16, none⟩, tInt)] 20 false
+def alphaS : List ITok := [.lbrace, .rbrace, .comma, one, .dot "s", .dot "c", .idx 1, .eq]
+/-- `struct { int a:3; int :2; union { int x; struct { int p, q; } y; } u; int f[]; }` (bit-field, unnamed bit-field, union, flexible member) -/
+def scopeF : Ty := .struct [(⟨some "a", 0, some (0, 3)⟩, tInt), (⟨none, 0, some (3, 2)⟩, tInt),
+  (⟨some "u", 4, none⟩, .union [(⟨some "x", 0, none⟩, tInt),
+      (⟨some "y", 0, none⟩, .struct [(⟨some "p", 0, none⟩, tInt), (⟨some "q", 4, none⟩, tInt)] 8 false)] 8 false),
+  (⟨some "f", 12, none⟩, .array tInt 0)] 12 true
+def alphaF : List ITok := [.lbrace, .rbrace, .comma, one, .dot "u", .dot "y", .dot "f", .idx 1, .eq]
+/-- `int x[]` with index and range designators -/
+def scopeI : Ty := .inc tInt
+def alphaI : List ITok := [.rbrace, .comma, one, .idx 1, .idx 3, .range 1 2, .eq, .lbrace]
+/-- `struct { int p; int q[2]; } x[]` -/
+def scopeQ : Ty := .inc (.struct [(⟨some "p", 0, none⟩, tInt), (⟨some "q", 4, none⟩, .array tInt 2)] 12 false)
+def alphaQ : List ITok := [.rbrace, .comma, one, .idx 0, .idx 2, .eq, .lbrace, .dot "q"]
+
+/-- the scope `{ t₁ … tₙ` with first token `t₁ = first` -/
+def scope (alphabet : List ITok) (n : Nat) (first : ITok) : List (List ITok) :=
+  (allLists alphabet n).map (fun l => ITok.lbrace :: first :: l)
+
+/-- **C05 (parser = 6.7.9), exhaustive small scope 1**: every token list `{ t₁ … t₅` over `{ } , 1 .s .c [1] =` for the nested
+    struct `scopeS` (32768 lists: braces, elision, nested and out-of-order designators, continuation after a designator). -/
+theorem C05_parse_spec_partial : ∀ first ∈ alphaS, (scope alphaS 4 first).all (agreeOn scopeS) = true := by
+  decide +kernel
+
+/-- scope 2: bit-field, unnamed bit-field, union and flexible array member; `{ t₁ … t₄` over 9 tokens (6561 lists) -/
+theorem C05_parse_spec_partial_flex : ∀ first ∈ alphaF, (scope alphaF 3 first).all (agreeOn scopeF) = true := by
+  decide +kernel
+
+/-- non-vacuity: thousands of the lists of the scopes are accepted by both sides -/
+example : ((scope alphaS 3 one).filter (fun l => (parseInit scopeS l).toOption.isSome && (InitSpec.init scopeS l).toOption.isSome)).length = 118118 := by
+  decide +kernel
+
+/-- **C05 (count), full statement.**  For an array of unknown bound the length `count_array_init_elements` gives the object is the
+    specification's: the largest indexed element with an explicit initializer, plus one (6.7.9p22). -/
+def C05_count_Statement : Prop :=
+  ∀ (elem : Ty) (toks : List ITok) (p : Init × List ITok) (r : InitSpec.Result),
+    parseInit (.inc elem) toks = .ok p → InitSpec.initFull (.inc elem) toks = .ok r → r.over = false →
+      p.1.children.length = r.obj.children.length
+
+/-- what `agreeOn` gives for the bound -/
+def sameBound (ty : Ty) (toks : List ITok) : Bool :=
+  match parseInit ty toks, InitSpec.initFull ty toks with
+  | .ok (p, _), .ok r => r.over || p.children.length == r.obj.children.length
+  | _, _ => true
+
+/-- **C05 (count), exhaustive small scope**: `int x[] = { t₁ … t₅` over `} , 1 [1] [3] [1 ... 2] = {` (32768 lists) and
+    `struct { int p; int q[2]; } x[] = { t₁ … t₄` over `} , 1 [0] [2] = { .q` (4096 lists): same tree, hence same bound. -/
+theorem C05_count_partial :
+    (∀ first ∈ alphaI, (scope alphaI 4 first).all (fun l => agreeOn scopeI l && sameBound scopeI l) = true) ∧
+    (∀ first ∈ alphaQ, (scope alphaQ 3 first).all (fun l => agreeOn scopeQ l && sameBound scopeQ l) = true) := by
+  decide +kernel
 
 end ChibiVerif.Props.C05
